@@ -55,9 +55,21 @@ Inductive tfield :=
 | FWksProto                                (* WKS protocol: a number (names go to socket.getprotobyname: not modelled) *)
 | FWksPorts                                (* WKS: the remaining tokens are port numbers (names: getservbyname, not modelled);
                                               the value is the bitmap *)
+| FSvcbRec                                 (* the whole SVCB / HTTPS record: priority, target, parameters *)
 | FAplRest                                 (* APL: the remaining tokens as [!]family:address/prefix items *)
 | FKeyRec.                                 (* the whole KEY record: flags (number or LegacyFlag mnemonics joined by "|"),
                                               protocol (number or mnemonic), algorithm, and the key unless the flags say NOKEY *)
+
+(* SVCB / HTTPS parameter values (dns/rdtypes/svcbbase.py) *)
+Inductive pval :=
+| PNone                              (* key without value (value None) *)
+| PKeys (l : list Z)                 (* mandatory *)
+| PStrs (l : list (list Z))          (* alpn, docpath *)
+| PPort (z : Z)
+| PAddrs (v6 : bool) (l : list (list Z))   (* ipv4hint / ipv6hint, as octets *)
+| PEch (b : list Z)
+| PGen (b : list Z).                 (* any other key *)
+
 
 Inductive gwval := GwNone | GwText (t : list Z) | GwName (n : name).
 
@@ -71,6 +83,7 @@ Inductive tval :=
 | VGw (g a : Z) (gw : gwval)
 | VApl (items : list (Z * bool * list Z * Z))   (* family, negation, address, prefix; the address is 4 / 16 octets for
                                                   families 1 / 2 and the hex text of the octets for any other family *)
+| VSvcb (prio : Z) (target : name) (params : list (Z * pval))    (* parameters in key order *)
 | VKey (flags proto alg : Z) (algtext : list Z) (key : list Z).
    (* algtext: the algorithm token between the token phase and the constructor ([] afterwards) *)
 
@@ -812,6 +825,53 @@ Definition name_to_styled_text (st : style) (n : name) : res (list Z) :=
   do n1 <- choose_relativity n (s_origin st) (s_relativize st);
   Ok (NameM.to_text n1).
 
+(* ---------- SVCB / HTTPS: to_styled_text ---------- *)
+(* svcbbase._escapify: comma and backslash *)
+Definition svcb_escapify (b : list Z) : list Z :=
+  flat_map (fun c => if (c =? 44) || (c =? 92) then [92; c] else [c]) b.
+
+Fixpoint join_comma (l : list (list Z)) : list Z :=
+  match l with
+  | [] => []
+  | [x] => x
+  | x :: r => x ++ 44 :: join_comma r
+  end.
+
+(* ParamKey members (upper case, as in the enum) *)
+Definition svcb_keys : list (list Z * Z) :=
+  [([77;65;78;68;65;84;79;82;89], 0); ([65;76;80;78], 1); ([78;79;95;68;69;70;65;85;76;84;95;65;76;80;78], 2);
+   ([80;79;82;84], 3); ([73;80;86;52;72;73;78;84], 4); ([69;67;72], 5); ([73;80;86;54;72;73;78;84], 6);
+   ([68;79;72;80;65;84;72], 7); ([79;72;84;84;80], 8); ([68;79;67;80;65;84;72], 10)].
+
+(* key_to_text: ParamKey.to_text(key).replace("_", "-").lower() *)
+Definition svcb_key_text (k : Z) : list Z :=
+  match assoc_value k svcb_keys with
+  | Some n => map lower_c (replace_char 95 45 n)
+  | None => [107; 101; 121] ++ dec k
+  end.
+
+(* Param.to_text *)
+Definition pval_text (v : pval) : res (option (list Z)) :=
+  match v with
+  | PNone => Ok None
+  | PKeys l => Ok (Some (34 :: join_comma (map svcb_key_text l) ++ [34]))
+  | PStrs ids => Ok (Some (quote (join_comma (map svcb_escapify ids))))
+  | PPort p => Ok (Some (34 :: dec p ++ [34]))
+  | PAddrs v6 l => do ts <- map_res (if v6 then ipv6_ntoa else ipv4_ntoa) l; Ok (Some (34 :: join_comma ts ++ [34]))
+  | PEch b => Ok (Some (34 :: b64encode b ++ [34]))
+  | PGen b => Ok (Some (quote b))
+  end.
+
+Definition svcb_param_text (kv : Z * pval) : res (list Z) :=
+  do t <- pval_text (snd kv);
+  Ok (svcb_key_text (fst kv) ++ match t with Some x => 61 :: x | None => [] end).
+
+(* SVCBBase.to_styled_text (the params are kept sorted by key) *)
+Definition svcb_to_text (st : style) (prio : Z) (target : name) (params : list (Z * pval)) : res (list Z) :=
+  do tgt <- name_to_styled_text st target;
+  do ps <- map_res svcb_param_text params;
+  Ok (dec prio ++ [32] ++ tgt ++ flat_map (fun p => 32 :: p) ps).
+
 Definition print_field (st : style) (f : tfield) (v : tval) : res (list Z) :=
   match f, v with
   | FDec _, VInt z => Ok (dec z)
@@ -852,6 +912,7 @@ Definition print_field (st : style) (f : tfield) (v : tval) : res (list Z) :=
   | FOther, VBytes b => Ok (dec (zlen b) ++ (if is_nil b then [] else 32 :: b64encode b))
   | FGposStr, VBytes b => Ok b          (* self.latitude.decode(): the validated strings are ASCII *)
   | FAplRest, VApl items => do ts <- map_res apl_item_text items; Ok (join_sp ts)
+  | FSvcbRec, VSvcb p n ps => svcb_to_text st p n ps
   | FAddr4S, VBytes b => ipv4_ntoa b
   | FWksProto, VInt z => Ok (dec z)
   | FWksPorts, VBytes bm => Ok (join_sp (map dec (wks_ports bm)))
@@ -945,6 +1006,162 @@ Definition key_from_text (st : tstate) : res (tval * tstate) :=
 Definition b64decode_str (t : list Z) : res (list Z) :=
   if forallb (fun c => (0 <=? c) && (c <? 128)) t then b64decode t else Internal iValueError.
 
+(* ================================================================== dns/rdtypes/svcbbase.py (SVCB, HTTPS) *)
+(* svcbbase._unescape: str -> bytes; a backslash followed by a decimal digit starts a three-digit escape *)
+Fixpoint svcb_unescape (s : list Z) : res (list Z) :=
+  match s with
+  | [] => Ok []
+  | c :: r =>
+      if c =? 92 then
+        match r with
+        | [] => Lib eUnexpectedEnd
+        | c1 :: r1 =>
+            if is_decimal c1 then
+              match r1 with
+              | [] => Lib eUnexpectedEnd
+              | c2 :: r2 =>
+                  match r2 with
+                  | [] => Lib eUnexpectedEnd
+                  | c3 :: r3 =>
+                      if negb (is_decimal c2 && is_decimal c3) then Lib eSyntax
+                      else
+                        let cp := (c1 - 48) * 100 + (c2 - 48) * 10 + (c3 - 48) in
+                        if cp >? 255 then Lib eSyntax
+                        else do t <- svcb_unescape r3; Ok (cp :: t)
+                  end
+              end
+            else do e <- utf8_cp c1; do t <- svcb_unescape r1; Ok (e ++ t)
+        end
+      else do e <- utf8_cp c; do t <- svcb_unescape r; Ok (e ++ t)
+  end.
+
+(* svcbbase._split: the comma-separated items of a value, backslash escapes the next octet *)
+Fixpoint svcb_split (s cur : list Z) : res (list (list Z)) :=
+  match s with
+  | [] => Ok [rev cur]
+  | c :: r =>
+      if c =? 92 then
+        match r with
+        | [] => Lib eUnexpectedEnd
+        | c1 :: r1 => svcb_split r1 (c1 :: cur)
+        end
+      else if c =? 44 then do t <- svcb_split r []; Ok (rev cur :: t)
+      else svcb_split r (c :: cur)
+  end.
+
+(* _validate_key on the latin-1 decoding of the octets: (key, force_generic) *)
+Definition svcb_validate_key (b : list Z) : res (Z * bool) :=
+  let force := starts_with [107; 101; 121] (map lower_c b) in
+  if force && starts_with [48] (skipn 3 b) && negb (Nat.eqb (length b) 4) then Internal iValueError
+  else
+    let u := map upper_c (replace_char 45 95 b) in
+    match assoc_text u svcb_keys with
+    | Some v => Ok (v, force)
+    | None =>
+        if starts_with [75; 69; 89] u && negb (is_nil (skipn 3 u)) && forallb is_decimal (skipn 3 u) then
+          let v := dec_value (skipn 3 u) 0 in
+          if v >? 65535 then Internal iValueError else Ok (v, force)
+        else Lib eUnknownRdatatype        (* UnknownParamKey: outside the SyntaxError family *)
+    end.
+
+(* Emptiness.NEVER: the classes that need a value *)
+Definition svcb_never (k : Z) : bool := (k =? 0) || (k =? 1) || (k =? 3) || (k =? 4) || (k =? 5) || (k =? 6).
+(* keys with a class of their own in _class_for_key *)
+Definition svcb_known (k : Z) : bool :=
+  (k =? 0) || (k =? 1) || (k =? 2) || (k =? 3) || (k =? 4) || (k =? 5) || (k =? 6) || (k =? 8) || (k =? 10).
+
+Fixpoint has_dup_sorted (l : list Z) : bool :=
+  match l with
+  | a :: ((b :: _) as r) => (a =? b) || has_dup_sorted r
+  | _ => false
+  end.
+
+(* cls.from_value(value) for a value that is not None *)
+Definition svcb_from_value (k : Z) (v : list Z) : res pval :=
+  if k =? 0 then                                   (* MandatoryParam *)
+    do ks <- map_res (fun t => do e <- utf8_encode t; do kf <- svcb_validate_key e; Ok (fst kf)) (split_on 44 v []);
+    let sorted := sort_z ks in
+    if has_dup_sorted sorted || existsb (Z.eqb 0) sorted then Internal iValueError else Ok (PKeys sorted)
+  else if (k =? 1) || (k =? 10) then               (* ALPNParam, DoCPathParam *)
+    if is_nil v then Ok PNone
+    else do u <- svcb_unescape v; do ids <- svcb_split u [];
+         if existsb (fun i => is_nil i || (zlen i >? 255)) ids then Internal iValueError else Ok (PStrs ids)
+  else if (k =? 2) || (k =? 8) then                (* NoDefaultALPNParam, OHTTPParam *)
+    if is_nil v then Ok PNone else Internal iValueError
+  else if k =? 3 then                              (* PortParam *)
+    match py_int 10 v with
+    | Some p => if (p <? 0) || (p >? 65535) then Internal iValueError else Ok (PPort p)
+    | None => Internal iValueError
+    end
+  else if k =? 4 then do l <- map_res ipv4_aton (split_on 44 v []); Ok (PAddrs false l)
+  else if k =? 6 then do l <- map_res ipv6_aton (split_on 44 v []); Ok (PAddrs true l)
+  else if k =? 5 then                              (* ECHParam *)
+    if existsb (Z.eqb 92) v then Internal iValueError
+    else do e <- utf8_encode v; do b <- b64decode e; Ok (PEch b)
+  else                                             (* GenericParam *)
+    if is_nil v then Ok PNone else do b <- svcb_unescape v; Ok (PGen b).
+
+(* _validate_and_define *)
+Definition svcb_define (params : list (Z * pval)) (key : list Z) (value : option (list Z)) : res (list (Z * pval)) :=
+  do kb <- svcb_unescape key;
+  do kf <- svcb_validate_key kb;
+  let '(k, force) := kf in
+  if existsb (fun kv => fst kv =? k) params then Internal iValueError       (* duplicate key *)
+  else
+    do pv <- match value with
+             | None => if svcb_never k then Internal iValueError else Ok PNone
+             | Some v =>
+                 if force then
+                   (* cls.from_wire_parser(Parser(_unescape(value))): modelled for the generic class only *)
+                   if svcb_known k then Internal iNotModelled
+                   else do b <- svcb_unescape v; Ok (if is_nil b then PNone else PGen b)
+                 else svcb_from_value k v
+             end;
+    Ok (params ++ [(k, pv)]).
+
+(* the parameter loop of SVCBBase.from_text *)
+Fixpoint svcb_params_loop (fuel : nat) (st : tstate) (params : list (Z * pval)) : res (list (Z * pval) * tstate) :=
+  match fuel with
+  | O => Internal tFuel
+  | S f =>
+      do ts <- get0 st;
+      let '(t, st1) := ts in
+      if is_eol_or_eof t then do st2 <- unget st1 t; Ok (params, st2)
+      else if negb (is_identifier t) then Internal iValueError
+      else
+        let v := tvalue t in
+        match split_once 61 v with
+        | None => do ps <- svcb_define params v None; svcb_params_loop f st1 ps
+        | Some (key, rest) =>
+            if is_nil key then Internal iValueError                    (* "=key" *)
+            else if is_nil rest then                                   (* "key=" + quoted string *)
+              do qs <- get st1 true false;
+              if negb (is_quoted (fst qs)) then Internal iValueError
+              else do ps <- svcb_define params key (Some (tvalue (fst qs))); svcb_params_loop f (snd qs) ps
+            else do ps <- svcb_define params key (Some rest); svcb_params_loop f st1 ps
+        end
+  end.
+
+(* SVCBBase.__init__: mandatory keys present, no-default-alpn needs alpn *)
+Definition svcb_ctor_ok (params : list (Z * pval)) : bool :=
+  let keys := map fst params in
+  forallb (fun kv => match snd kv with
+                     | PKeys l => if fst kv =? 0 then forallb (fun m => existsb (Z.eqb m) keys) l else true
+                     | _ => true
+                     end) params
+  && (negb (existsb (Z.eqb 2) keys) || existsb (Z.eqb 1) keys).
+
+Definition svcb_from_text (c : pctx) (st : tstate) : res (Z * name * list (Z * pval) * tstate) :=
+  do ps <- get_uint max16 st 10;
+  do ns <- get_name c (snd ps);
+  do st1 <- (if fst ps =? 0 then
+               do ts <- get0 (snd ns);
+               if negb (is_eol_or_eof (fst ts)) then Internal iValueError      (* parameters in AliasMode *)
+               else unget (snd ts) (fst ts)
+             else Ok (snd ns));
+  do pl <- svcb_params_loop (rem_fuel st1) st1 [];
+  if svcb_ctor_ok (fst pl) then Ok (fst ps, fst ns, fst pl, snd pl) else Internal iValueError.
+
 (* token-level part of cls.from_text: what is read (and converted) before the constructor runs *)
 Definition parse_field (c : pctx) (f : tfield) (st : tstate) : res (tval * tstate) :=
   match f with
@@ -997,6 +1214,7 @@ Definition parse_field (c : pctx) (f : tfield) (st : tstate) : res (tval * tstat
       do ts <- get_remaining st 0;
       do ports <- map_res wks_token_port (fst ts);
       Ok (VBytes (truncate_bitmap (fold_left wks_set ports [])), snd ts)
+  | FSvcbRec => do r <- svcb_from_text c st; let '(p, n, ps, st') := r in Ok (VSvcb p n ps, st')
   | FAplRest => do ts <- get_remaining st 0; do items <- map_res apl_item_of_token (fst ts); Ok (VApl items, snd ts)
   | FMac =>
       do ns <- get_uint max16 st 10;
@@ -1108,217 +1326,6 @@ Definition record_from_text (c : pctx) (fs : list tfield) (chk : list tval -> re
 Definition record_to_text (st : style) (fs : list tfield) (vs : list tval) : res (list Z) :=
   print_fields st fs vs.
 
-(* ================================================================== dns/rdtypes/svcbbase.py (SVCB, HTTPS) *)
-(* svcbbase._unescape: str -> bytes; a backslash followed by a decimal digit starts a three-digit escape *)
-Fixpoint svcb_unescape (s : list Z) : res (list Z) :=
-  match s with
-  | [] => Ok []
-  | c :: r =>
-      if c =? 92 then
-        match r with
-        | [] => Lib eUnexpectedEnd
-        | c1 :: r1 =>
-            if is_decimal c1 then
-              match r1 with
-              | [] => Lib eUnexpectedEnd
-              | c2 :: r2 =>
-                  match r2 with
-                  | [] => Lib eUnexpectedEnd
-                  | c3 :: r3 =>
-                      if negb (is_decimal c2 && is_decimal c3) then Lib eSyntax
-                      else
-                        let cp := (c1 - 48) * 100 + (c2 - 48) * 10 + (c3 - 48) in
-                        if cp >? 255 then Lib eSyntax
-                        else do t <- svcb_unescape r3; Ok (cp :: t)
-                  end
-              end
-            else do e <- utf8_cp c1; do t <- svcb_unescape r1; Ok (e ++ t)
-        end
-      else do e <- utf8_cp c; do t <- svcb_unescape r; Ok (e ++ t)
-  end.
-
-(* svcbbase._split: the comma-separated items of a value, backslash escapes the next octet *)
-Fixpoint svcb_split (s cur : list Z) : res (list (list Z)) :=
-  match s with
-  | [] => Ok [rev cur]
-  | c :: r =>
-      if c =? 92 then
-        match r with
-        | [] => Lib eUnexpectedEnd
-        | c1 :: r1 => svcb_split r1 (c1 :: cur)
-        end
-      else if c =? 44 then do t <- svcb_split r []; Ok (rev cur :: t)
-      else svcb_split r (c :: cur)
-  end.
-
-(* svcbbase._escapify: comma and backslash *)
-Definition svcb_escapify (b : list Z) : list Z :=
-  flat_map (fun c => if (c =? 44) || (c =? 92) then [92; c] else [c]) b.
-
-Fixpoint join_comma (l : list (list Z)) : list Z :=
-  match l with
-  | [] => []
-  | [x] => x
-  | x :: r => x ++ 44 :: join_comma r
-  end.
-
-(* ParamKey members (upper case, as in the enum) *)
-Definition svcb_keys : list (list Z * Z) :=
-  [([77;65;78;68;65;84;79;82;89], 0); ([65;76;80;78], 1); ([78;79;95;68;69;70;65;85;76;84;95;65;76;80;78], 2);
-   ([80;79;82;84], 3); ([73;80;86;52;72;73;78;84], 4); ([69;67;72], 5); ([73;80;86;54;72;73;78;84], 6);
-   ([68;79;72;80;65;84;72], 7); ([79;72;84;84;80], 8); ([68;79;67;80;65;84;72], 10)].
-
-(* key_to_text: ParamKey.to_text(key).replace("_", "-").lower() *)
-Definition svcb_key_text (k : Z) : list Z :=
-  match assoc_value k svcb_keys with
-  | Some n => map lower_c (replace_char 95 45 n)
-  | None => [107; 101; 121] ++ dec k
-  end.
-
-(* _validate_key on the latin-1 decoding of the octets: (key, force_generic) *)
-Definition svcb_validate_key (b : list Z) : res (Z * bool) :=
-  let force := starts_with [107; 101; 121] (map lower_c b) in
-  if force && starts_with [48] (skipn 3 b) && negb (Nat.eqb (length b) 4) then Internal iValueError
-  else
-    let u := map upper_c (replace_char 45 95 b) in
-    match assoc_text u svcb_keys with
-    | Some v => Ok (v, force)
-    | None =>
-        if starts_with [75; 69; 89] u && negb (is_nil (skipn 3 u)) && forallb is_decimal (skipn 3 u) then
-          let v := dec_value (skipn 3 u) 0 in
-          if v >? 65535 then Internal iValueError else Ok (v, force)
-        else Lib eUnknownRdatatype        (* UnknownParamKey: outside the SyntaxError family *)
-    end.
-
-Inductive pval :=
-| PNone                              (* key without value (value None) *)
-| PKeys (l : list Z)                 (* mandatory *)
-| PStrs (l : list (list Z))          (* alpn, docpath *)
-| PPort (z : Z)
-| PAddrs (v6 : bool) (l : list (list Z))   (* ipv4hint / ipv6hint, as octets *)
-| PEch (b : list Z)
-| PGen (b : list Z).                 (* any other key *)
-
-(* Emptiness.NEVER: the classes that need a value *)
-Definition svcb_never (k : Z) : bool := (k =? 0) || (k =? 1) || (k =? 3) || (k =? 4) || (k =? 5) || (k =? 6).
-(* keys with a class of their own in _class_for_key *)
-Definition svcb_known (k : Z) : bool :=
-  (k =? 0) || (k =? 1) || (k =? 2) || (k =? 3) || (k =? 4) || (k =? 5) || (k =? 6) || (k =? 8) || (k =? 10).
-
-Fixpoint has_dup_sorted (l : list Z) : bool :=
-  match l with
-  | a :: ((b :: _) as r) => (a =? b) || has_dup_sorted r
-  | _ => false
-  end.
-
-(* cls.from_value(value) for a value that is not None *)
-Definition svcb_from_value (k : Z) (v : list Z) : res pval :=
-  if k =? 0 then                                   (* MandatoryParam *)
-    do ks <- map_res (fun t => do e <- utf8_encode t; do kf <- svcb_validate_key e; Ok (fst kf)) (split_on 44 v []);
-    let sorted := sort_z ks in
-    if has_dup_sorted sorted || existsb (Z.eqb 0) sorted then Internal iValueError else Ok (PKeys sorted)
-  else if (k =? 1) || (k =? 10) then               (* ALPNParam, DoCPathParam *)
-    if is_nil v then Ok PNone
-    else do u <- svcb_unescape v; do ids <- svcb_split u [];
-         if existsb (fun i => is_nil i || (zlen i >? 255)) ids then Internal iValueError else Ok (PStrs ids)
-  else if (k =? 2) || (k =? 8) then                (* NoDefaultALPNParam, OHTTPParam *)
-    if is_nil v then Ok PNone else Internal iValueError
-  else if k =? 3 then                              (* PortParam *)
-    match py_int 10 v with
-    | Some p => if (p <? 0) || (p >? 65535) then Internal iValueError else Ok (PPort p)
-    | None => Internal iValueError
-    end
-  else if k =? 4 then do l <- map_res ipv4_aton (split_on 44 v []); Ok (PAddrs false l)
-  else if k =? 6 then do l <- map_res ipv6_aton (split_on 44 v []); Ok (PAddrs true l)
-  else if k =? 5 then                              (* ECHParam *)
-    if existsb (Z.eqb 92) v then Internal iValueError
-    else do e <- utf8_encode v; do b <- b64decode e; Ok (PEch b)
-  else                                             (* GenericParam *)
-    if is_nil v then Ok PNone else do b <- svcb_unescape v; Ok (PGen b).
-
-(* _validate_and_define *)
-Definition svcb_define (params : list (Z * pval)) (key : list Z) (value : option (list Z)) : res (list (Z * pval)) :=
-  do kb <- svcb_unescape key;
-  do kf <- svcb_validate_key kb;
-  let '(k, force) := kf in
-  if existsb (fun kv => fst kv =? k) params then Internal iValueError       (* duplicate key *)
-  else
-    do pv <- match value with
-             | None => if svcb_never k then Internal iValueError else Ok PNone
-             | Some v =>
-                 if force then
-                   (* cls.from_wire_parser(Parser(_unescape(value))): modelled for the generic class only *)
-                   if svcb_known k then Internal iNotModelled
-                   else do b <- svcb_unescape v; Ok (if is_nil b then PNone else PGen b)
-                 else svcb_from_value k v
-             end;
-    Ok (params ++ [(k, pv)]).
-
-(* the parameter loop of SVCBBase.from_text *)
-Fixpoint svcb_params_loop (fuel : nat) (st : tstate) (params : list (Z * pval)) : res (list (Z * pval) * tstate) :=
-  match fuel with
-  | O => Internal tFuel
-  | S f =>
-      do ts <- get0 st;
-      let '(t, st1) := ts in
-      if is_eol_or_eof t then do st2 <- unget st1 t; Ok (params, st2)
-      else if negb (is_identifier t) then Internal iValueError
-      else
-        let v := tvalue t in
-        match split_once 61 v with
-        | None => do ps <- svcb_define params v None; svcb_params_loop f st1 ps
-        | Some (key, rest) =>
-            if is_nil key then Internal iValueError                    (* "=key" *)
-            else if is_nil rest then                                   (* "key=" + quoted string *)
-              do qs <- get st1 true false;
-              if negb (is_quoted (fst qs)) then Internal iValueError
-              else do ps <- svcb_define params key (Some (tvalue (fst qs))); svcb_params_loop f (snd qs) ps
-            else do ps <- svcb_define params key (Some rest); svcb_params_loop f st1 ps
-        end
-  end.
-
-(* SVCBBase.__init__: mandatory keys present, no-default-alpn needs alpn *)
-Definition svcb_ctor_ok (params : list (Z * pval)) : bool :=
-  let keys := map fst params in
-  forallb (fun kv => match snd kv with
-                     | PKeys l => if fst kv =? 0 then forallb (fun m => existsb (Z.eqb m) keys) l else true
-                     | _ => true
-                     end) params
-  && (negb (existsb (Z.eqb 2) keys) || existsb (Z.eqb 1) keys).
-
-Definition svcb_from_text (c : pctx) (st : tstate) : res (Z * name * list (Z * pval) * tstate) :=
-  do ps <- get_uint max16 st 10;
-  do ns <- get_name c (snd ps);
-  do st1 <- (if fst ps =? 0 then
-               do ts <- get0 (snd ns);
-               if negb (is_eol_or_eof (fst ts)) then Internal iValueError      (* parameters in AliasMode *)
-               else unget (snd ts) (fst ts)
-             else Ok (snd ns));
-  do pl <- svcb_params_loop (rem_fuel st1) st1 [];
-  if svcb_ctor_ok (fst pl) then Ok (fst ps, fst ns, fst pl, snd pl) else Internal iValueError.
-
-(* Param.to_text *)
-Definition pval_text (v : pval) : res (option (list Z)) :=
-  match v with
-  | PNone => Ok None
-  | PKeys l => Ok (Some (34 :: join_comma (map svcb_key_text l) ++ [34]))
-  | PStrs ids => Ok (Some (quote (join_comma (map svcb_escapify ids))))
-  | PPort p => Ok (Some (34 :: dec p ++ [34]))
-  | PAddrs v6 l => do ts <- map_res (if v6 then ipv6_ntoa else ipv4_ntoa) l; Ok (Some (34 :: join_comma ts ++ [34]))
-  | PEch b => Ok (Some (34 :: b64encode b ++ [34]))
-  | PGen b => Ok (Some (quote b))
-  end.
-
-Definition svcb_param_text (kv : Z * pval) : res (list Z) :=
-  do t <- pval_text (snd kv);
-  Ok (svcb_key_text (fst kv) ++ match t with Some x => 61 :: x | None => [] end).
-
-(* SVCBBase.to_styled_text (the params are kept sorted by key) *)
-Definition svcb_to_text (st : style) (prio : Z) (target : name) (params : list (Z * pval)) : res (list Z) :=
-  do tgt <- name_to_styled_text st target;
-  do ps <- map_res svcb_param_text params;
-  Ok (dec prio ++ [32] ++ tgt ++ flat_map (fun p => 32 :: p) ps).
-
 (* ---------- the regular types ---------- *)
 Definition u8 := FDec 255. Definition u16 := FDec 65535. Definition u32 := FDec 4294967295.
 Definition cstr := FQStr 0 255 false.
@@ -1368,6 +1375,7 @@ Definition schema_of (rdtype : Z) : option (list tfield) :=
   else if rdtype =? 27 then Some [FGposStr; FGposStr; FGposStr]                    (* GPOS *)
   else if rdtype =? 25 then Some [FKeyRec]                                         (* KEY *)
   else if rdtype =? 42 then Some [FAplRest]                                        (* APL *)
+  else if (rdtype =? 64) || (rdtype =? 65) then Some [FSvcbRec]                    (* SVCB HTTPS *)
   else if rdtype =? 11 then Some [FAddr4S; FWksProto; FWksPorts]                   (* WKS *)
   else if rdtype =? 250 then Some [FNameNoRel; FDec max48; u16; FMac; u16; FEnum KRcode; FOther]   (* TSIG *)
   else if rdtype =? 45 then Some [u8; FGw true; FB64RestE]                         (* IPSECKEY *)
@@ -1433,6 +1441,7 @@ Definition obs_of_val (v : tval) : obs :=
   | VWindows ws => L (map (fun w => L [I (fst w); B (snd w)]) ws)
   | VNames l => L (map obs_of_name l)
   | VKey f p a _ k => L [I f; I p; I a; B k]
+  | VSvcb p n ps => L [I p; obs_of_name n; L (map (fun kv : Z * pval => I (fst kv)) ps)]
   | VApl items => L (map (fun it : aplitem => let '(f, n, a, p) := it in L [I f; I (if n then 1 else 0); B a; I p]) items)
   | VGw g a gw => L [I g; I a; match gw with GwNone => I 0 | GwText t => obs_of_text t | GwName n => obs_of_name n end]
   end.
